@@ -1,7 +1,7 @@
 import Pyrtma.Proofs.ManagerSafe
 import Pyrtma.Proofs.ManagerClose
 import Pyrtma.Proofs.ManagerId
-import Pyrtma.Spec.Manager
+import Pyrtma.Proofs.ManagerSpecFrame
 /-!
 # Refinement of the history-based Spec by the manager model M1 — part 1: the model side
 
@@ -385,3 +385,131 @@ theorem ticks_nest (cfg : Cfg) (s : State) : Nest s (ticks cfg s) := by
   split
   · exact h2.trans (sendActive_nest cfg s2)
   · exact h2
+
+/-! ## the simulation relation -/
+
+open Spec in
+/-- one live entry of the abstract table against the module record the manager keeps for the same connection -/
+structure SimMod (cfg : Cfg) (am : AMod) (m : Module) : Prop where
+  connected : am.connected = m.connected
+  modId : am.modId = m.modId
+  unique : am.unique = m.unique
+  isLogger : am.isLogger = m.isLogger
+  isDaemon : am.isDaemon = m.isDaemon
+  name : am.name = m.name
+  pid : am.pid = m.pid
+  subs : m.subs = if am.subAll then [cfg.allTypes] else am.types
+  noAll : cfg.allTypes ∉ am.types
+
+/-- **The simulation relation** between the Spec's abstract state (after replaying a history and the model's events for
+it) and the model's state (after running the same history): the connections the Spec considers alive are exactly the
+table entries other than the manager's own; for each, identity, flags, name, pid and subscriptions agree; the receive
+buffer, the failure environment, the accept counter and — on live connections — the writable set agree.  The statistics
+fields of `A` are not constrained.  The last four clauses are facts about the model alone (the members of the logger set
+that are in the table are exactly the modules with the logger flag, each listed once, and those are connected). -/
+structure Sim (cfg : Cfg) (a : Spec.A) (s : State) : Prop where
+  uids : a.mods.map (·.uid) = (List.range a.nAccepted).map (· + 1)
+  nacc : a.nAccepted = s.nextUid
+  fail : a.fail = s.fail
+  buf : a.buf = s.buf
+  live : ∀ u, u ≠ 0 → ((a.live u).isSome ↔ (s.find u).isSome)
+  mods : ∀ u am m, a.live u = some am → s.find u = some m → SimMod cfg am m
+  w : ∀ u, (a.live u).isSome → (u ∈ a.w ↔ u ∈ s.wlist)
+  logIn : ∀ u m, s.find u = some m → m.isLogger = true → u ∈ s.loggers
+  logOut : ∀ u m, u ∈ s.loggers → s.find u = some m → m.isLogger = true
+  logConn : ∀ u m, s.find u = some m → m.isLogger = true → m.connected = true
+  logNodup : s.loggers.Nodup
+
+theorem mem_closes (evs : List Ev) (u : Nat) : u ∈ Spec.closes evs ↔ Ev.close u ∈ evs := by
+  unfold Spec.closes
+  rw [List.mem_filterMap]
+  constructor
+  · rintro ⟨e, he, h⟩
+    cases e <;> simp at h
+    subst h; exact he
+  · intro h; exact ⟨_, h, rfl⟩
+
+theorem closeCnt_pos {evs : List Ev} {u : Nat} (h : Ev.close u ∈ evs) : 0 < closeCnt evs u := by
+  unfold closeCnt
+  exact List.countP_pos_iff.mpr ⟨_, h, by simp [isClose]⟩
+
+theorem simMod_core {cfg : Cfg} {am : Spec.AMod} {m m' : Module} (h : SimMod cfg am m) (e : m'.core = m.core) :
+    SimMod cfg am m' := by
+  have : m'.connected = m.connected ∧ m'.modId = m.modId ∧ m'.unique = m.unique ∧ m'.isLogger = m.isLogger ∧
+      m'.isDaemon = m.isDaemon ∧ m'.name = m.name ∧ m'.pid = m.pid ∧ m'.subs = m.subs := by
+    unfold Module.core at e; cases m; cases m'; simp_all
+  obtain ⟨e1, e2, e3, e4, e5, e6, e7, e8⟩ := this
+  exact ⟨by rw [e1]; exact h.connected, by rw [e2]; exact h.modId, by rw [e3]; exact h.unique, by rw [e4]; exact h.isLogger,
+    by rw [e5]; exact h.isDaemon, by rw [e6]; exact h.name, by rw [e7]; exact h.pid, by rw [e8]; exact h.subs, h.noAll⟩
+
+/-- **Nested activity is replayed by `applyDepartures`.**  If the abstract state simulates the model state `s`, and the
+model moves to `s'` by nested manager activity only (between two points where no module is half-removed), then marking
+as departed exactly the connections closed in the events of that move restores the simulation. -/
+theorem sim_quiet {cfg : Cfg} {a : Spec.A} {s s' : State} (hs : Sim cfg a s) (ao : AllOpen s) (ao' : AllOpen s')
+    (n : Nest s s') (j : J s') (ext : List Ev) (he : s'.out = s.out ++ ext) :
+    Sim cfg (Spec.applyDepartures a ext) s' := by
+  obtain ⟨hb, hfl, hw, hna, herr⟩ := Spec.applyDepartures_core a ext
+  obtain ⟨ext', he', _, hcl⟩ := n.ext
+  have hee : ext' = ext := List.append_cancel_left (he'.symm.trans he)
+  subst hee
+  -- a connection closed in the extension is not in the table afterwards
+  have closed_gone : ∀ u, Ev.close u ∈ ext' → s'.find u = none := by
+    intro u hu
+    cases hf : s'.find u with
+    | none => rfl
+    | some m' =>
+      have h1 := isOpen_of_find hf (ao' u m' hf)
+      have h2 := j.phi u
+      have h3 : 0 < closeCnt s'.out u := by
+        rw [he]; unfold closeCnt; rw [List.countP_append]
+        have := closeCnt_pos hu; unfold closeCnt at this; omega
+      unfold phi at h2; rw [h1] at h2; simp at h2; omega
+  have live' : ∀ u, (Spec.applyDepartures a ext').live u = if (Spec.closes ext').contains u then none else a.live u :=
+    Spec.applyDepartures_live a ext'
+  refine ⟨by rw [Spec.applyDepartures_uids, hna]; exact hs.uids, by rw [hna, n.nuid]; exact hs.nacc,
+    by rw [hfl, n.fail]; exact hs.fail, by rw [hb, n.buf]; exact hs.buf, ?_, ?_, ?_, ?_, ?_, ?_, ?_⟩
+  · intro u hu
+    rw [live']
+    by_cases hc : (Spec.closes ext').contains u = true
+    · have := closed_gone u ((mem_closes ext' u).mp (by simpa using hc))
+      simp only [hc, if_true, this, Option.isSome_none]
+    · simp only [hc, Bool.false_eq_true, if_false]
+      rw [hs.live u hu]
+      constructor
+      · intro h
+        obtain ⟨m, hm⟩ := Option.isSome_iff_exists.mp h
+        have hop : openIn s u := ⟨m, hm, ao u m hm⟩
+        by_cases ho' : openIn s' u
+        · obtain ⟨m', hm', _⟩ := ho'; simp [hm']
+        · exact absurd ((mem_closes ext' u).mpr (hcl u hop ho')) (by simpa using hc)
+      · intro h
+        obtain ⟨m', hm'⟩ := Option.isSome_iff_exists.mp h
+        obtain ⟨m, hm, _⟩ := n.surv u m' hm' (ao' u m' hm')
+        simp [hm]
+  · intro u am m' hl hm'
+    rw [live'] at hl
+    split at hl
+    · cases hl
+    · obtain ⟨m, hm, e⟩ := n.surv u m' hm' (ao' u m' hm')
+      exact simMod_core (hs.mods u am m hl hm) e
+  · intro u hl
+    rw [live'] at hl
+    split at hl
+    · cases hl
+    · rw [hw, n.wlist]; exact hs.w u hl
+  · intro u m' hm' h1
+    obtain ⟨m, hm, e⟩ := n.surv u m' hm' (ao' u m' hm')
+    have e' : m'.isLogger = m.isLogger := (core_fields e).2.2.1
+    exact n.logKeep u (hs.logIn u m hm (by rw [← e']; exact h1)) ⟨m', hm', ao' u m' hm'⟩
+  · intro u m' hu hm'
+    obtain ⟨m, hm, e⟩ := n.surv u m' hm' (ao' u m' hm')
+    have e' : m'.isLogger = m.isLogger := (core_fields e).2.2.1
+    rw [e']; exact hs.logOut u m (n.logSub.subset hu) hm
+  · intro u m' hm' h1
+    obtain ⟨m, hm, e⟩ := n.surv u m' hm' (ao' u m' hm')
+    have e' : m'.isLogger = m.isLogger ∧ m'.connected = m.connected := by
+      unfold Module.core at e; cases m; cases m'; simp_all
+    rw [e'.2]; exact hs.logConn u m hm (by rw [← e'.1]; exact h1)
+  · exact n.logSub.nodup hs.logNodup
+
+end Pyrtma.Mgr
